@@ -55,7 +55,7 @@
 // covered inbound by hooks-direct only and outbound by both strata.
 //
 // Sensitivity. Each mutation was applied alone to a private copy of the instrumented overlay (conngater.go,
-// swarm_dial.go, upgrader/listener.go, upgrader/upgrader.go), one worker, budget 60 s; all 27 were reported within
+// swarm_dial.go, upgrader/listener.go, upgrader/upgrader.go), one worker, budget 60 s; all 27 of the first batch were reported within
 // 25 s (most within 5 s). Class that fired first in the default stratum mix / classes that fired with
 // C10_ONLY=full (full-stack stratum alone), where that was run:
 //
@@ -78,6 +78,8 @@
 //	loadRules swallows the error of the subnet query                     list/acked-block-missing/subnet/restored
 //	swarm: InterceptAddrDial not consulted                               dialed-blocked-addr, admitted-blocked-addr/outbound
 //	swarm: InterceptPeerDial not consulted                               dialed-blocked-peer, admitted-blocked-peer/outbound
+//	swarm: existing-conn lookup + InterceptPeerDial moved from dialPeer   dialed-blocked-peer, admitted-blocked-peer/outbound (seeded change C10b/1; MISSED while DialPeer was the
+//	  up into the public DialPeer (Swarm.NewStream dials ungated)        only dial trigger, caught within 60 s on 8 workers since Swarm.NewStream is a trigger too)
 //	swarm: addresses produced by DNS resolution are not gated            dialed-blocked-subnet, admitted-blocked-subnet/outbound (only the swarm-level oracles can see this one)
 //	gated listener: InterceptAccept not consulted                        inbound-not-closed-at-accept/addr, admitted-blocked-addr/inbound
 //	upgrader: InterceptSecured not consulted                             inbound-blocked-peer-not-closed-after-handshake, admitted-blocked-peer/inbound
